@@ -125,6 +125,10 @@ func check(c Case) error {
 			st, e = entry.Check(re, s, []int{-1, 1, 2})
 			return e
 		})
+		if h.IsTimeoutPanic(err) {
+			h.Discard("timeout")
+			return nil
+		}
 		if err != nil {
 			red := c
 			red.Inputs, red.Alpha, red.MaxLen = [][]byte{in}, nil, 0
@@ -160,6 +164,10 @@ func check(c Case) error {
 func prop(t *rapid.T) {
 	c := gen1(t)
 	if err := h.Safely(func() error { return check(c) }); err != nil {
+		if h.IsTimeoutPanic(err) {
+			h.Discard("timeout")
+			return
+		}
 		red := c
 		if f, ok := err.(*failure); ok {
 			red = f.red
